@@ -323,6 +323,9 @@ class Explorer:
         if "fn" in k:
             return ("kfn", k["fn"], tuple(k.get("ga", [])))
         if "bytes" in k:
+            if k.get("fields"):
+                # struct constant: field layout [(name, offset, size), ...] from the compiler
+                return ("kb", k["bytes"], k["ty"], tuple(tuple(f) for f in k["fields"]))
             return ("kb", k["bytes"], k["ty"])
         if "closure" in k:
             return ("kclosure", k["closure"])
